@@ -2,10 +2,12 @@
 // addition is a *dump* of the complete flat model (all constraint keepers incl. reformulated/unused items, final
 // contexts, depth/bridged/unused flags, variables, init expressions, objectives, solution-check options) and of the
 // arguments / outcome of the real SolutionChecker::CheckSolution call.  The check itself is the unmodified library code.
-#include "mp/model-mgr-with-std-pb.hpp"
-#include "mp/flat/redef/MIP/converter_mip.h"
-#include "mp/flat/model_api_connect.h"
-#include "recmodelapi.h"
+//
+// The recording driver's own model-manager TU is included textually (it also defines helper functions used by
+// recbackend.cc, e.g. the link dumps of C19/C20); only its factory function is renamed and replaced below.
+#define CreateRecModelMgr CreateRecModelMgr_plain_unused
+#include "recmodelmgr.cc"
+#undef CreateRecModelMgr
 
 namespace mp {
 
